@@ -416,27 +416,33 @@ func (p *prs) _onBounds(r any, begin, end Token) {
 // stdin: {"<pkg>": {"Limit": n, "Inputs": [[tok ids]...]}} ; stdout: {"<pkg>": [Result...]}.
 func ParserDriverMain(pkgs []string) string {
 	var d strings.Builder
-	d.WriteString("package main\n\nimport (\n\t\"encoding/json\"\n\t\"os\"\n\t\"time\"\n")
+	d.WriteString("package main\n\nimport (\n\t\"encoding/json\"\n\t\"os\"\n\t\"syscall\"\n\t\"time\"\n")
 	for _, p := range pkgs {
 		fmt.Fprintf(&d, "\t%s \"verifscratch/%s\"\n", p, p)
 	}
 	// A parse that spins inside the generated runtime calls neither an action nor ReadToken, so
-	// the step bounds cannot stop it: every parse also runs under a wall-clock guard that is six
-	// orders of magnitude above a normal run. A guarded-out parse is reported as Panic "TIMEOUT"
-	// (pbatch confirms it in a process of its own before a check sees it); its goroutine keeps
-	// spinning, so the remaining inputs of that package - and, after four such parses, of all
-	// packages - are marked SKIPPED.
-	d.WriteString(")\n\ntype job struct {\n\tInputs [][]int\n\tLimits []int\n}\n\nvar timeouts int\n\n// guard: ok=false when the parse was guarded out\nfunc guard(f func() any) (any, bool) {\n\tch := make(chan any, 1)\n\tgo func() { ch <- f() }()\n\tselect {\n\tcase r := <-ch:\n\t\treturn r, true\n\tcase <-time.After(" + GuardSeconds + " * time.Second):\n\t\ttimeouts++\n\t\treturn nil, false\n\t}\n}\n\nfunc main() {\n\tvar in map[string]job\n\tif err := json.NewDecoder(os.Stdin).Decode(&in); err != nil {\n\t\tpanic(err)\n\t}\n\tout := map[string]any{}\n")
+	// the step bounds cannot stop it: every parse also runs under a guard. The guard is a budget
+	// of CPU time, not of wall-clock time: the driver runs one parse at a time, so the CPU time
+	// the process consumed since the parse began bounds what the parse itself consumed, and it
+	// does not grow while a loaded machine keeps the process off the processor (a wall-clock
+	// guard of 6 s reported a 4 749-token sentence as hanging when the load average was 66).
+	// A parse that has burnt GuardSeconds CPU-seconds (five to six orders of magnitude above a
+	// normal parse) is reported as Panic "TIMEOUT" (pbatch confirms it in a process of its own
+	// before a check sees it). Its goroutine keeps spinning and would be charged to the next
+	// parse, so every remaining input of the process is marked SKIPPED and re-run by pbatch in a
+	// fresh process. A parse that neither returns nor uses CPU for 10 minutes is "STALLED":
+	// inconclusive, never a verdict.
+	d.WriteString(")\n\ntype job struct {\n\tInputs [][]int\n\tLimits []int\n}\n\nvar timeouts int\n\nfunc cpuNow() time.Duration {\n\tvar ru syscall.Rusage\n\tsyscall.Getrusage(syscall.RUSAGE_SELF, &ru)\n\treturn time.Duration(ru.Utime.Nano() + ru.Stime.Nano())\n}\n\n// guard: why=\"\" when the parse returned, else TIMEOUT / STALLED\nfunc guard(f func() any) (any, string) {\n\tch := make(chan any, 1)\n\tgo func() { ch <- f() }()\n\tc0, t0 := cpuNow(), time.Now()\n\tfor {\n\t\tselect {\n\t\tcase r := <-ch:\n\t\t\treturn r, \"\"\n\t\tcase <-time.After(250 * time.Millisecond):\n\t\t}\n\t\tif cpuNow()-c0 >= " + GuardSeconds + "*time.Second {\n\t\t\ttimeouts++\n\t\t\treturn nil, \"TIMEOUT\"\n\t\t}\n\t\tif time.Since(t0) >= 10*time.Minute {\n\t\t\ttimeouts++\n\t\t\treturn nil, \"STALLED\"\n\t\t}\n\t}\n}\n\nfunc main() {\n\tvar in map[string]job\n\tif err := json.NewDecoder(os.Stdin).Decode(&in); err != nil {\n\t\tpanic(err)\n\t}\n\tout := map[string]any{}\n")
 	for _, p := range pkgs {
-		fmt.Fprintf(&d, "\tif j, ok := in[%q]; ok {\n\t\trs := []any{}\n\t\thung := false\n\t\tfor i, w := range j.Inputs {\n\t\t\tif hung || timeouts >= 4 {\n\t\t\t\trs = append(rs, %s.Result{Panic: \"SKIPPED\"})\n\t\t\t\tcontinue\n\t\t\t}\n\t\t\tw, lim := w, j.Limits[i]\n\t\t\tr, ok := guard(func() any { return %s.Run(w, lim) })\n\t\t\tif !ok {\n\t\t\t\thung = true\n\t\t\t\tr = %s.Result{Panic: \"TIMEOUT\"}\n\t\t\t}\n\t\t\trs = append(rs, r)\n\t\t}\n\t\tout[%q] = rs\n\t}\n", p, p, p, p, p)
+		fmt.Fprintf(&d, "\tif j, ok := in[%q]; ok {\n\t\trs := []any{}\n\t\tfor i, w := range j.Inputs {\n\t\t\tif timeouts >= 1 {\n\t\t\t\trs = append(rs, %s.Result{Panic: \"SKIPPED\"})\n\t\t\t\tcontinue\n\t\t\t}\n\t\t\tw, lim := w, j.Limits[i]\n\t\t\tr, why := guard(func() any { return %s.Run(w, lim) })\n\t\t\tif why != \"\" {\n\t\t\t\tr = %s.Result{Panic: why}\n\t\t\t}\n\t\t\trs = append(rs, r)\n\t\t}\n\t\tout[%q] = rs\n\t}\n", p, p, p, p, p)
 	}
 	d.WriteString("\tjson.NewEncoder(os.Stdout).Encode(out)\n\tos.Exit(0)\n}\n")
 	return d.String()
 }
 
-// GuardSeconds is the wall-clock guard per parse in the driver (a string because it is pasted
-// into the driver's source).
-var GuardSeconds = "6"
+// GuardSeconds is the CPU-time budget per parse in the driver, in seconds (a string because it is
+// pasted into the driver's source).
+var GuardSeconds = "8"
 
 // Result mirrors the generated package's Result.
 type Result struct {
